@@ -54,6 +54,10 @@ class ResponseHandler(BaseProtocol, DataQueue[tuple[RawResponseMessage, StreamRe
         self._closed: None | asyncio.Future[None] = None
         self._connection_lost_called = False
 
+        # True from the start of an exchange until its final response is
+        # complete. Bytes arriving outside of that window were not asked for.
+        self._exchange_open = False
+
     @property
     def closed(self) -> None | asyncio.Future[None]:
         """Future that is set when the connection is closed.
@@ -86,6 +90,11 @@ class ResponseHandler(BaseProtocol, DataQueue[tuple[RawResponseMessage, StreamRe
             or self._payload_parser is not None
             or self._buffer
             or self._tail
+            # the start of a message nobody asked for
+            or (
+                not self._exchange_open
+                and getattr(self._parser, "has_pending_input", False)
+            )
         )
 
     def force_close(self) -> None:
@@ -111,6 +120,15 @@ class ResponseHandler(BaseProtocol, DataQueue[tuple[RawResponseMessage, StreamRe
 
     def is_connected(self) -> bool:
         return self.transport is not None and not self.transport.is_closing()
+
+    def is_reusable(self) -> bool:
+        """Check an idle pooled connection before it is handed out again.
+
+        Anything that arrived while the connection sat in the pool (an
+        unsolicited response, surplus bytes after the previous response) was
+        not asked for by the next request and must not become its response.
+        """
+        return not self.should_close
 
     def connection_lost(self, exc: BaseException | None) -> None:
         self._connection_lost_called = True
@@ -241,6 +259,7 @@ class ResponseHandler(BaseProtocol, DataQueue[tuple[RawResponseMessage, StreamRe
         max_headers: int = 128,
     ) -> None:
         self._skip_payload = skip_payload
+        self._exchange_open = True
 
         self._read_timeout = read_timeout
 
@@ -263,6 +282,9 @@ class ResponseHandler(BaseProtocol, DataQueue[tuple[RawResponseMessage, StreamRe
         if self._tail:
             data, self._tail = self._tail, b""
             self.data_received(data)
+
+    def _end_of_exchange(self) -> None:
+        self._exchange_open = False
 
     def _drop_timeout(self) -> None:
         if self._read_timeout_handle is not None:
@@ -322,6 +344,12 @@ class ResponseHandler(BaseProtocol, DataQueue[tuple[RawResponseMessage, StreamRe
             self._tail += data
             return
 
+        if data and not self._exchange_open:
+            # Unsolicited bytes: after the end of the response, or while the
+            # connection idles in the pool. Whatever they are, they must not
+            # become (part of) the response to the next request.
+            self._should_close = True
+
         # parse http messages
         try:
             messages, upgraded, tail = self._parser.feed_data(data)
@@ -356,8 +384,14 @@ class ResponseHandler(BaseProtocol, DataQueue[tuple[RawResponseMessage, StreamRe
 
             if self._skip_payload or message.code in EMPTY_BODY_STATUS_CODES:
                 self.feed_data((message, EMPTY_PAYLOAD))
+                if message.code >= 200:
+                    self._exchange_open = False
             else:
                 self.feed_data((message, payload))
+                if payload.is_eof():
+                    self._exchange_open = False
+                else:
+                    payload.on_eof(self._end_of_exchange)
 
         if payload is not None:
             # new message(s) was processed
